@@ -75,6 +75,30 @@ Example C09_helpers_dead_nonvacuous : exists h l b cs, data l = Some b /\ nth_er
 Proof. exact dead_witness. Qed.
 Print Assumptions C09_helpers_dead_nonvacuous.
 
+(* the argument of append / remove is a `const T &`: for `x.append(y[i])` it refers INTO y's buffer - and y may be
+   x itself (`ring.append(ring[0])`, `hist.append(hist[-1])`, `w.remove(w[0])`).  For every well-formed list l and
+   every well-formed list s of the same heap (in particular s = l): the helper is safe iff Python's index condition
+   holds on s, yields Python's contents, and frees exactly what it replaces.  (The model reads the referenced cell
+   where the template reads `value`: after the copy loop, before delete[]; a template that reads it after
+   delete[] is a use after free for s = l and no longer refines this model.) *)
+Theorem C09_argument_alias_safe : forall h l cs s cs2 i, rep h l cs -> rep h s cs2 ->
+  (in_range s i -> exists h' l' v, list_get h s i = Safe v /\
+       list_append_a h l (ARef s i) = Safe (h', l') /\ rep h' l' (cs ++ [v]) /\
+       live_cells h' = live_cells h + 1) /\
+  (~ in_range s i -> list_append_a h l (ARef s i) = Unsafe OutOfBounds) /\
+  (in_range s i -> exists h' l' v, list_get h s i = Safe v /\
+       list_remove_a h l (ARef s i) = Safe (h', l') /\
+       rep h' l' (match remove_first v cs with Some c => c | None => cs end) /\
+       live_cells h' + size l = live_cells h + size l').
+Proof. exact argument_alias_safe. Qed.
+Print Assumptions C09_argument_alias_safe.
+
+(* ... instantiated at s = l: appending / removing an element of the very same list *)
+Theorem C09_self_argument_safe : forall h l cs i, rep h l cs -> in_range l i ->
+  exists h' l' v, list_get h l i = Safe v /\ list_append_a h l (ARef l i) = Safe (h', l') /\ rep h' l' (cs ++ [v]).
+Proof. exact self_argument_safe. Qed.
+Print Assumptions C09_self_argument_safe.
+
 (* ============================================================== programs, inside the guard *)
 
 (* single owner (no `b = a` into another name, no re-assignment from a literal / comprehension,
@@ -170,7 +194,35 @@ Example C09_partial_nonvacuous :
 Proof. exact (conj ok_guard ok_python). Qed.
 Print Assumptions C09_partial_nonvacuous.
 
+(* single_owner also admits `x.append(y[i])`, `x.remove(y[i])` (x, y declared, possibly the same list) and tuple
+   assignments `x1, .., xn = y1, .., yn` whose right-hand sides are the same declared names in another order (swap,
+   rotation, any permutation: plain pointer exchange through struct-copy temporaries): the witness below uses
+   ring.append(ring[0]), ring.remove(ring[0]), a swap and a three-way rotation; CPython runs it for 5 passes. *)
+Example C09_partial_alias_tuple_nonvacuous :
+  single_owner ok2_setup ok2_body = true /\ exists pst, run_py ok2_setup ok2_body 5 = POk pst /\ p_live pst = 8.
+Proof. exact (conj ok2_guard ok2_python). Qed.
+Print Assumptions C09_partial_alias_tuple_nonvacuous.
+
+(* the guard on a tuple assignment, spelled out *)
+Theorem C09_tuple_guard : forall decl xs rs, tuple_ok decl xs rs = true ->
+  exists ys, rhs_vars rs = Some ys /\ length xs = length ys /\ NoDup xs /\ NoDup ys /\ incl ys xs /\ incl xs decl.
+Proof. exact tuple_ok_spec. Qed.
+Print Assumptions C09_tuple_guard.
+
 (* ============================================================== refuted at full strength *)
+
+(* def ident(xs): return xs     a = [1, 2, 3]; a = ident(a)  - fine in Python (a is a); the firmware runs
+   __redu_list_assign(a, ident(a)) whose source is a temporary struct copy sharing a's buffer: deleted, then read *)
+Theorem C09_assign_self_alias_refuted :
+  exists setup body n pst, run_py setup body n = POk pst /\ run_fw setup body n = Unsafe UseAfterFree.
+Proof. exact assign_self_alias_use_after_free. Qed.
+Print Assumptions C09_assign_self_alias_refuted.
+
+(* a = [1,2,3]; b = [4,5,6]   while True: a, b = [7,8,9], a   - the tuple assignment stores the temporaries with plain
+   struct assignments, b's previous buffer is never freed: one block leaked per pass, Python's live data constant *)
+Theorem C09_tuple_literal_leak_refuted : leaks tuple_leak_setup tuple_leak_body.
+Proof. exact tuple_literal_leak. Qed.
+Print Assumptions C09_tuple_literal_leak_refuted.
 
 (* a = [1,2,3]; b = a; a.append(4); b[0]  - fine in Python, use after free in the firmware
    (`b = a;` copies the struct, append frees the shared buffer) *)
